@@ -16,7 +16,7 @@
 From Coq Require Import ZArith List Bool QArith Qcanon Sorted.
 From SG Require Import Base.QcUtil Model.CombiScheme Model.RefTree Model.DimWise Model.DimWiseInterp
      Proofs.SchemeInv Proofs.CombiAbstract Proofs.RefTreeInv Proofs.RefTreeCheck Proofs.DimWiseInv
-     Proofs.DimWiseStripes Proofs.DimWiseCombi Proofs.C03Main Proofs.DimWiseNodal.
+     Proofs.DimWiseStripes Proofs.DimWiseCombi Proofs.C03Main Proofs.DimWiseNodal Proofs.DimWiseFuel.
 Import ListNotations.
 Open Scope Z_scope.
 
@@ -47,6 +47,23 @@ Theorem C03_stripes_monotone : forall o st d l l' s1,
   stripe_dim o st d l = Some s1 -> l <= l' -> exists s2, stripe_dim o st d l' = Some s2 /\ incl s1 s2.
 Proof. exact dw_stripes_monotone. Qed.
 Print Assumptions C03_stripes_monotone.
+
+(* the while loops of versions 6/7/8 terminate within the model's fuel: in every reachable state (any options, rebalancing
+   included) all stripes are defined for versions 2, 3, 6, 7; for version 8 whenever every maximum level is >= 2 *)
+Theorem C03_stripes_defined_reachable : forall n lmin lmax a b o steps st0 st d l,
+  Forall2 (fun x y => (x < y)%Qc) a b ->
+  dw_init (S n) lmin lmax a b = Some st0 -> dw_run o steps st0 = Some st ->
+  (o_version o = 2 \/ o_version o = 3 \/ o_version o = 6 \/ o_version o = 7) ->
+  (d < st_dim st)%nat -> exists s, stripe_dim o st d l = Some s.
+Proof. exact dw_reachable_stripes_defined. Qed.
+Print Assumptions C03_stripes_defined_reachable.
+
+Theorem C03_stripes_defined : forall o st d l t,
+  nth_error (st_trees st) d = Some t -> t <> [] ->
+  (o_version o = 2 \/ o_version o = 3 \/ o_version o = 6 \/ o_version o = 7 \/
+   (o_version o = 8 /\ forall i, (i < length t)%nat -> 2 <= get_max_level t i)) ->
+  exists s, stripe_dim o st d l = Some s.
+Proof. exact stripe_dim_defined. Qed.
 
 (* component grid = tensor product of the per-dimension point sets (end points stripped when boundary = False) *)
 Theorem C03_component_points_are_tensor : forall o st lv pts, get_points_component_grid o st lv = Some pts ->
